@@ -24,9 +24,9 @@ def main():
         sh("git -C /repo worktree add -q %s HEAD" % WT, cwd="/")
         shutil.copy("/repo/Cargo.lock", WT)
     out = {}
-    for d in sorted(glob.glob("/tmp/seed/C*/[AB]")):
+    for d in sorted(glob.glob(os.environ.get("SEEDDIR", "/tmp/seed") + "/C*/[AB]")):
         pid, ab = d.split("/")[-2], d.split("/")[-1]
-        name = "%s-%s" % (pid, ab)
+        name = "%s-%s%s" % (pid, os.environ.get("SEEDTAG", ""), ab)
         if sys.argv[1:] and name not in sys.argv[1:]:
             continue
         demos = [f for f in glob.glob(d + "/*.rs")]
@@ -71,7 +71,7 @@ def main():
                                "cargo test --offline -p %s --test %s  (with the change: fails)" % (pkg, tname)],
                        "checks": [pid]}, open(dst + "/meta.json", "w"), indent=1)
     sh("git checkout -q -- . && git clean -fdq -e Cargo.lock -e target")
-    json.dump(out, open("/tmp/seed/CONFIRM.json", "w"), indent=1)
+    json.dump(out, open(os.environ.get("SEEDDIR", "/tmp/seed") + "/CONFIRM.json", "w"), indent=1)
 
 
 if __name__ == "__main__":
